@@ -1,3 +1,4 @@
+import Gv.Oracle.Cli
 import Gv.Oracle.Det
 import Gv.Oracle.Clean
 import Gv.Oracle.Stats
@@ -5,4 +6,4 @@ import Gv.Oracle.Loop
 /-! oracle of property C14: only the handlers it needs -/
 open Gv Gv.Oracle
 
-def main : IO Unit := runOracle [CleanOps.handle, StatsOps.handle, DetOps.handle]
+def main : IO Unit := runOracle [CleanOps.handle, StatsOps.handle, DetOps.handle, CliOps.handle]
